@@ -18,6 +18,28 @@ def is_param(s, i):
     return a is not None and a[0] == i
 
 
+def _is_gen_field(u, s):
+    """s denotes self.<the generation counter>: the one atomic field of Generational."""
+    s = strip_sym(s)
+    for _ in range(6):
+        if isinstance(s, tuple) and s and s[0] in ("ref", "deref"):
+            s = strip_sym(s[1])
+        elif isinstance(s, tuple) and s and s[0] == "call" and sym_is_call(s, "Deref::deref", "AsRef::as_ref") and s[2]:
+            s = strip_sym(s[2][0])
+        else:
+            break
+    if not (isinstance(s, tuple) and s and s[0] == "field" and is_param(s[1], 0)):
+        return False
+    adt = u.adts.get(GEN) or {}
+    atom = [f["name"] for v in adt.get("variants", []) for f in v.get("fields", []) if "Atomic" in f.get("ty", "")]
+    return s[2] in (atom or ["gen"])
+
+
+def const_int(s):
+    s = strip_sym(s)
+    return s[2] if isinstance(s, tuple) and s[:2] == ("const", "int") else None
+
+
 def run(ctx):
     chk = ctx.check
     u = ctx.crate("metrics_util")
@@ -217,13 +239,43 @@ def run(ctx):
                 chk.unrecognised("C12.b", f"<anchor> <Generational<T> as {trait}>::{mn}", f"found {len(fs)}")
                 continue
             f = fs[0]
+            b_ = f.body
             wis = [c for c in nonforeign_calls(f) if c.fn is f and c.is_("Generational<T>::with_increment")]
-            inner = [c for c in nonforeign_calls(f) if c.fn is not f and (c.t.get("trait") or "").endswith(trait)]
-            ok = len(wis) == 1 and len(inner) == 1 and callee_method_name(inner[0]) == mn and len(nonforeign_calls(f)) == 2
-            if ok:
-                a = [Sym(inner[0].fn).operand(x) for x in inner[0].args]
-                ok = is_param(strip_sym(a[0]), 1) and "capture" in repr(a[1]) and is_param(strip_sym(a[1]), 1)
-            chk.ob("C12.b", f.path, ok, f"{mn}(value) = with_increment(|x| x.{mn}(value))" if ok else f"{trait}::{mn} of Generational does not go through with_increment + the same-named inner method with the value unchanged (the generation would not change on this update)", f.loc())
+            inner = [c for c in nonforeign_calls(f) if (c.t.get("trait") or "").endswith(trait)]
+            bumps = [o for o in atomic_ops(f) if o[0].fn is f and o[1] == "fetch_add" and _is_gen_field(u, o[2])]
+            why = ""
+            if len(wis) == 1 and not bumps:
+                # (A) through with_increment (decided above: update, then bump): the closure applies the same-named inner
+                # method to the value, and no path through the method avoids the call
+                ok = len(inner) == 1 and inner[0].fn is not f and callee_method_name(inner[0]) == mn
+                if ok:
+                    a = [Sym(inner[0].fn).operand(x) for x in inner[0].args]
+                    ok = is_param(strip_sym(a[0]), 1) and "capture" in repr(a[1]) and is_param(strip_sym(a[1]), 1)
+                skip = [r for r in b_.return_blocks() if not b_.blocks[r].get("cleanup") and r in b_.reachable(0, cut={wis[0].bb})]
+                if ok and skip:
+                    ok, why = False, "a path through the method returns without the update/bump (e.g. an early return for some values)"
+                shape = f"{mn}(value) = with_increment(|x| x.{mn}(value))"
+            elif not wis and len(bumps) == 1:
+                # (B) spelled out: self.inner.<mn>(value), then the bump, on every path
+                ok = len(inner) == 1 and inner[0].fn is f and callee_method_name(inner[0]) == mn
+                if ok:
+                    a = arg_syms(inner[0])
+                    recv = strip_sym(sym_through(a[0], "Deref::deref", "AsRef::as_ref"))
+                    ok = recv[0] == "field" and is_param(recv[1], 0) and not _is_gen_field(u, recv) and is_param(strip_sym(a[1]), 1)
+                bb = bumps[0][0].bb
+                o_ = orderings_in(bumps[0][3])
+                if ok:
+                    ok = b_.dominates(inner[0].bb, bb) and inner[0].bb != bb and bool(o_) and o_[0] in ("Release", "AcqRel", "SeqCst") and const_int(bumps[0][3][1]) == 1
+                    if not ok:
+                        why = "the generation is not advanced by one, with at least Release ordering, after the update"
+                skip = [r for r in b_.return_blocks() if not b_.blocks[r].get("cleanup") and r in b_.reachable(0, cut={bb})]
+                if ok and skip:
+                    ok, why = False, "a path through the method returns without bumping the generation"
+                shape = f"{mn}(value) = self.inner.{mn}(value); gen += 1"
+            else:
+                ok, shape = False, ""
+                why = f"{len(wis)} with_increment calls and {len(bumps)} direct generation bumps"
+            chk.ob("C12.b", f.path, ok, shape if ok else f"{trait}::{mn} of Generational does not apply the same-named inner method to the value and then advance the generation on every path ({why or 'inner call / argument mismatch'}): the generation would not change on this update", f.loc())
     fam = {}
     for k in KINDS:
         f = one_method(chk, "C12.b", u, REC, f"should_store_{k}")
